@@ -90,11 +90,11 @@ func v1Divider(name string) prio1.Divider {
 }
 
 type prioMon struct {
-	f    failer
-	cfg  Cfg
-	w    *vrt.World
-	P    []uint // configured priorities, descending; index = input index
-	H    uint
+	f     failer
+	cfg   Cfg
+	w     *vrt.World
+	P     []uint // configured priorities, descending; index = input index
+	H     uint
 	share map[uint]uint
 
 	ins  []*vrt.ChanState
@@ -102,36 +102,36 @@ type prioMon struct {
 	fb   *vrt.ChanState // v1: harness-owned feedback
 	errc *vrt.ChanState
 
-	reg      map[*vrt.ChanState]uint // channel -> priority it is registered under (C17)
-	origin   map[int]*vrt.ChanState  // item origin -> channel it was written to
-	written  []int                   // per origin
-	nextSeq  []int                   // per origin: next sequence number expected on the output
-	inflight map[uint]int
-	total    int // items in flight
-	maxTotal int
-	delivered int
-	released  int
-	inClosed  []bool
-	outClosed bool
-	errClosed bool
-	errSeen   []error
-	handling  int // simple: Handle calls entered and not left
-	handled   map[Item]int
-	stopReturned    bool
+	reg              map[*vrt.ChanState]uint // channel -> priority it is registered under (C17)
+	origin           map[int]*vrt.ChanState  // item origin -> channel it was written to
+	written          []int                   // per origin
+	nextSeq          []int                   // per origin: next sequence number expected on the output
+	inflight         map[uint]int
+	total            int // items in flight
+	maxTotal         int
+	delivered        int
+	released         int
+	inClosed         []bool
+	outClosed        bool
+	errClosed        bool
+	errSeen          []error
+	handling         int // simple: Handle calls entered and not left
+	handled          map[Item]int
+	stopReturned     bool
 	gracefulReturned bool
-	faulted   int // index of the divider call that misbehaved (0 = none)
-	faultKind int
-	sentAfterFault int
-	divCalls  int
-	fullStates int
-	saturated bool
-	satEnded  bool
-	removed map[*vrt.ChanState]bool
-	pendingReg map[*vrt.ChanState]uint
-	inHand  *Item
-	scriptLog []string
-	lastFrom []int
-	order    []string // delivery order along the current path (not part of the key)
+	faulted          int // index of the divider call that misbehaved (0 = none)
+	faultKind        int
+	sentAfterFault   int
+	divCalls         int
+	fullStates       int
+	saturated        bool
+	satEnded         bool
+	removed          map[*vrt.ChanState]bool
+	pendingReg       map[*vrt.ChanState]uint
+	inHand           *Item
+	scriptLog        []string
+	lastFrom         []int
+	order            []string // delivery order along the current path (not part of the key)
 }
 
 func (m *prioMon) Hash() uint64 {
@@ -744,6 +744,9 @@ func (m *prioMon) terminal(w *vrt.World, out vrt.Outcome, totalItems int, divw *
 	if m.faulted != 0 {
 		// C15: after a fault in a round division the discipline reports and terminates
 		if !want(c, "C15") {
+			if m.errClosed {
+				return m.libAlive(w) // C19: error termination must not leave goroutines behind
+			}
 			return ""
 		}
 		if !m.errClosed {
@@ -800,7 +803,11 @@ func (m *prioMon) terminal(w *vrt.World, out vrt.Outcome, totalItems int, divw *
 			}
 		}
 	} else if c.Script > 0 {
-		for idx, ch := range m.origin {
+		for idx := 0; idx < len(m.nextSeq); idx++ {
+			ch := m.origin[idx]
+			if ch == nil {
+				continue
+			}
 			if _, registered := m.reg[ch]; registered && m.nextSeq[idx] != m.written[idx] && (want(c, "C17") || want(c, "C02") || want(c, "C07")) {
 				return fmt.Sprintf("%s: GracefulStop() returned but only %d of %d items written to the registered input %d were delivered (script %v)", c.Prop, m.nextSeq[idx], m.written[idx], idx, m.scriptLog)
 			}
@@ -822,6 +829,9 @@ func (m *prioMon) terminal(w *vrt.World, out vrt.Outcome, totalItems int, divw *
 }
 
 func (m *prioMon) libAlive(w *vrt.World) string {
+	if !want(m.cfg, "C19") {
+		return ""
+	}
 	for _, t := range w.Threads {
 		if t.Lib && !t.Done() {
 			return fmt.Sprintf("C19: library goroutine %s is still alive after the discipline terminated: %s", t.Name, w.Describe())
@@ -960,7 +970,6 @@ func (d *dividerWrap) maybeFault(priorities []uint, dividend uint, distribution 
 		}
 	}
 }
-
 
 func spawnErrReader(m *prioMon, errs <-chan error) {
 	vrt.Spawn("errreader", func() {
